@@ -679,6 +679,83 @@ theorem C11_exact_schema_with_complex_partial (d : Dict) (rank : Nat → Nat) (h
   intro y _
   rw [Bool.and_comm]
 
+/-- the instance is internally mapped and its entity (or a supertype) redeclares attribute `a` -/
+def redeclB (d : Dict) (a : Nat) (y : SInst) : Bool :=
+  match y.ents with
+  | [k] => (redeclOf d k).contains a
+  | _ => false
+
+theorem redecl_not_found (d : Dict) (y : SInst) (a o x : Nat) (hy : redeclB d a y = true) :
+    (mkInst d (encode d y)).attrs.any (fun t => t.owner == o && t.name == a && t.refs.contains x) = false := by
+  unfold redeclB at hy
+  split at hy
+  · rename_i k hk
+    have henc : mkInst d (encode d y) = Inst.mk y.id (typesOf d k)
+        (zipAttrs (redeclOf d k) (layoutOf d k) ((layoutOf d k).map (fun q => y.val q.1 q.2.1))) := by
+      unfold encode mkInst layoutOf
+      rw [hk]
+    rw [henc]
+    cases hany : (zipAttrs (redeclOf d k) (layoutOf d k) ((layoutOf d k).map (fun q => y.val q.1 q.2.1))).any
+        (fun t => t.owner == o && t.name == a && t.refs.contains x) with
+    | false => rfl
+    | true =>
+      obtain ⟨_, _, _, _, hc, _⟩ := (zipAttrs_any _ _ o a x _).mp hany
+      rw [hy] at hc; cases hc
+  · cases hy
+
+open Classical in
+/-- **the whole population** (`_partial`): externally mapped instances and referrers whose entity redeclares the inverted attribute are
+    allowed — the slot holds exactly the referrers that are internally mapped **and** whose entity does not redeclare the inverted
+    attribute, in population order, each once.  What the two kept findings (`complex-referrer`, `redeclared-inverted-attr`) lose is
+    exactly the referrers the two conjuncts `simpleB`, `!redeclB` remove; nothing else is lost and nothing is added.  Left as a
+    hypothesis: the target's own entity does not redeclare the inverted attribute (`hxg`); single-valued inverses (`C11_single`). -/
+theorem C11_exact_schema_whole_population_partial (d : Dict) (rank : Nat → Nat) (h : Ranked d rank) (hd : AttrNamesUnique d)
+    (hu : InheritUnique d) (spop : List SInst)
+    (x k : Nat) (hx : ∃ sx ∈ spop, sx.id = x ∧ sx.ents = [k])
+    (iv : InvDecl) (hxg : (redeclOf d k).contains iv.attrName = false) (hs : iv ∈ slots d k) (ha : iv.aggr = true)
+    (hwf : ∃ e, SupStar d iv.over e ∧ Declares d e iv.attrName) :
+    resolveD d (spop.map (encode d)) x k iv =
+      .ok ((spop.filter (fun y => (simpleB y && !redeclB d iv.attrName y) && decide (Referrer d x iv y))).map (·.id)) := by
+  have hsome := (C11_attr_owner d rank h iv.over iv.attrName).2 hwf
+  obtain ⟨o, ho⟩ : ∃ o, attrOwner d iv.over iv.attrName = some o := by
+    cases hq : attrOwner d iv.over iv.attrName with
+    | none => rw [hq] at hsome; cases hsome
+    | some o => exact ⟨o, rfl⟩
+  have hid : ∀ p : SInst, ((mkInst d ∘ encode d) p).id = p.id := fun p => by
+    show (mkInst d (encode d p)).id = p.id
+    rw [mkInst_id, encode_id]
+  -- the part of the population whose entities do not redeclare the inverted attribute
+  have hx' : ∃ sx ∈ spop.filter (fun y => !redeclB d iv.attrName y), sx.id = x ∧ sx.ents = [k] := by
+    obtain ⟨sx, hm, h1, h2⟩ := hx
+    refine ⟨sx, List.mem_filter.mpr ⟨hm, ?_⟩, h1, h2⟩
+    unfold redeclB; rw [h2]; simp only; rw [hxg]; rfl
+  have hmain := C11_exact_schema_with_complex_partial d rank h hd hu (spop.filter (fun y => !redeclB d iv.attrName y)) x k hx' iv hs ha hwf
+    (fun y hy k' hk' => by
+      have := (List.mem_filter.mp hy).2
+      unfold redeclB at this; rw [hk'] at this
+      simpa using this)
+  rw [C11_exact_dict d hd _ x k iv hs o ho ha, List.map_map, specRefs_map _ (mkInst d ∘ encode d) (·.id) x (mkIA iv o) hid] at hmain
+  rw [C11_exact_dict d hd (spop.map (encode d)) x k iv hs o ho ha, List.map_map,
+    specRefs_map spop (mkInst d ∘ encode d) (·.id) x (mkIA iv o) hid]
+  have hsame : spop.filter (fun p => ((mkInst d ∘ encode d) p).types.contains (mkIA iv o).over &&
+        ((mkInst d ∘ encode d) p).attrs.any (fun a => a.owner == (mkIA iv o).attrOwner && a.name == (mkIA iv o).attrName && a.refs.contains x)) =
+      (spop.filter (fun y => !redeclB d iv.attrName y)).filter (fun p => ((mkInst d ∘ encode d) p).types.contains (mkIA iv o).over &&
+        ((mkInst d ∘ encode d) p).attrs.any (fun a => a.owner == (mkIA iv o).attrOwner && a.name == (mkIA iv o).attrName && a.refs.contains x)) := by
+    rw [List.filter_filter]
+    apply List.filter_congr
+    intro y _
+    cases hb : redeclB d iv.attrName y with
+    | false => simp
+    | true =>
+      have := redecl_not_found d y iv.attrName o x hb
+      simp only [mkIA, Function.comp] at this ⊢
+      rw [this]; simp
+  rw [hsame, hmain, List.filter_filter]
+  congr 2
+  apply List.filter_congr
+  intro y _
+  cases simpleB y <;> cases redeclB d iv.attrName y <;> simp
+
 open Classical in
 /-- … none twice: distinct instance names give a duplicate-free result -/
 theorem C11_exact_schema_nodup (d : Dict) (x : Nat) (iv : InvDecl) (spop : List SInst) (hid : (spop.map (·.id)).Nodup) :
